@@ -6,11 +6,9 @@ import crash
 ID = "C11"
 DRIVER = "crash11"
 MODEL_FILES = ["Model/Base.v", "Model/Parse.v", "Model/Node.v", "Model/Disk.v"]
-THEOREMS = ["C11_crash_state_is_plan_prefix", "C11_no_kill_means_complete", "C11_kill_stops_before_ith_call", "C11_crash_files_one_db",
-            "C11_before_image_loads", "C11_after_image_loads", "C11_first_site_harmless", "C11_torn_inplace_update_refuted",
-            "C11_value_not_yet_written_refuted", "C11_reclaim_window_refuted", "C11_start_panics_refuted"]
+THEOREMS = ["C11_crash_state_is_plan_prefix", "C11_no_kill_means_complete", "C11_kill_stops_before_ith_call", "C11_crash_files_one_db", "C11_before_image_loads", "C11_after_image_loads", "C11_first_site_harmless", "C11_torn_inplace_update_refuted", "C11_value_not_yet_written_refuted", "C11_reclaim_window_refuted", "C11_start_panics_refuted", "C11_incr_untouched_keys_survive_total", "C11_incr_untouched_keys_survive", "C11_incr_untouched_keys_survive_kill", "C11_incr_no_panic", "C11_incr_prefix_files", "C11_incr_plan_shape", "C11_frame_demo", "C11_nul_key_overwritten_refuted", "C11_fresh_db_create_window"]
 STRENGTH = {"C11_crash_state_is_plan_prefix": "structural, unbounded", "C11_crash_files_one_db": "structural, unbounded",
-            "full statement": "refuted on the faithful model by four witnesses (known findings); a frame theorem for untouched keys is future work"}
+            "full statement": "refuted on the faithful model by four witnesses (known findings)", "C11_incr_untouched_keys_survive_total": "proof-unbounded (frame theorem, incremental snapshots, every crash point)"}
 RULE = ("a family of before/after datasets (new, updated, removed keys; values of 0-600 bytes around the 250-byte writer buffer; "
         "one or two databases; reclaim on/off; 0-2 earlier completed snapshots) x every kill point: the child running the "
         "interrupted snapshot is killed by strace when its N-th write/pwrite64/rename/unlink on a data file returns, for N = 1.. "
